@@ -427,9 +427,11 @@ Ltac q2r := repeat (rewrite Q2R_plus || rewrite Q2R_mult || rewrite Q2R_opp || r
             rewrite ?RMicromega.Q2R_0, ?RMicromega.Q2R_1.
 Definition Q2M (A : QM3) : M3 := (Q2V (fst (fst A)), Q2V (snd (fst A)), Q2V (snd A)).
 Ltac qopen := unfold Q2M, Q2V, qapply, qadd, qsub, qdot, qRx, qRy, qRz, qx, qy, qz; cbn [fst snd].
+Lemma Q2R_Qred q : Q2R (Qred q) = Q2R q.
+Proof. apply Qeq_eqR, Qred_correct. Qed.
 Lemma qapply_sound A v : Q2V (qapply A v) = mapply (Q2M A) (Q2V v).
 Proof.
-  destruct A as [[[[a b] c] [[d e] f]] [[g h] i]], v as [[v1 v2] v3]. qopen; m3; q2r; reflexivity.
+  destruct A as [[[[a b] c] [[d e] f]] [[g h] i]], v as [[v1 v2] v3]. qopen; m3; rewrite !Q2R_Qred; q2r; reflexivity.
 Qed.
 Lemma qadd_sound a b : Q2V (qadd a b) = vadd (Q2V a) (Q2V b).
 Proof. destruct a as [[? ?] ?], b as [[? ?] ?]. qopen; v3; q2r; reflexivity. Qed.
